@@ -159,9 +159,18 @@ func GenCase(r *rng.R, p Profile) fw.Case {
 				}
 				return sx.L(sx.A("D"), sx.B(force), sx.B(true), sx.B(true))
 			}
+			// the first request of a pair may be a teardown that fails at one of its release rounds (1 in 4):
+			// the environment lives on and the second request is carried out on the state it left
+			mkD1 := func() *sx.Node {
+				if !r.P(1, 4) {
+					return mkD()
+				}
+				first := r.P(1, 2)
+				return sx.L(sx.A("D"), sx.B(r.P(2, 3)), sx.B(!first), sx.B(first))
+			}
 			var q1, q2 *sx.Node
 			if r.P(1, 3) {
-				q1 = mkD()
+				q1 = mkD1()
 			} else {
 				q1 = mkT([]string{"T"})
 			}
